@@ -506,7 +506,13 @@ class RPCSession(SessionBase):
             result = RPCError(JSONRPC.INTERNAL_ERROR, 'internal server error')
 
         if isinstance(request, Request):
-            message = request.send_result(result)
+            try:
+                message = request.send_result(result)
+            except ProtocolError:
+                # The handler's result cannot be encoded; the caller still gets a response
+                self.logger.exception(f'cannot encode the result of {request}')
+                result = RPCError(JSONRPC.INTERNAL_ERROR, 'internal server error')
+                message = request.send_result(result)
             if message:
                 await self._send_message(message)
         if isinstance(result, Exception):
